@@ -86,6 +86,28 @@ void harness(void){
     VASSERT(x[i]>=-1.f && x[i]<=1.f,"soft clip: output inside [-1,1] (peaks saturated at +-2, incl. +-infinity)");
     VASSERT(same_sign_or_zero(in[i],x[i]),"soft clip never flips a sample's sign");
   } else VASSERT(fbits(x[i])==fbits(in[i]),"nothing written beyond N*C samples");
+#if NMAX>=2
+  /* the memory is the coefficient still in force at the end of the call: an excursion that ended at a zero crossing before the last
+     sample leaves none */
+  for(int c=0;c<CMAX;c++){ float l=in[(NMAX-1)*CMAX+c], p=in[(NMAX-2)*CMAX+c];
+    if(l>=-1.f && l<=1.f && ((l>0.f&&p<0.f)||(l<0.f&&p>0.f))) VASSERT(fbits(mem[c])==0,"memory cleared when the frame ends in range after a zero crossing"); }
+#endif
   VWITNESS(in[0]>=2.f && (NMAX*CMAX==1 || in[NMAX*CMAX-1]<=-2.f));
+#elif MODE==4
+  /* in-range frame, memory left by a previous excursion (any coefficient a previous call can leave: |a|<=0.25*(1+2.4e-7)): the previous
+     curve is continued up to the first zero crossing (no division on this path), the samples stay inside [-1,1] and keep their sign, and the
+     memory is cleared because nothing is in force at the end of the call */
+  int N=NMAX, C=CMAX;
+  float x[NMAX*CMAX], in[NMAX*CMAX], mem[CMAX], m0[CMAX];
+  for(int i=0;i<NMAX*CMAX;i++){ float v=vt_float(); __CPROVER_assume(v>=-1.f && v<=1.f); x[i]=v; in[i]=v; }
+  for(int c=0;c<CMAX;c++){ float m=vt_float(); __CPROVER_assume(m>=-0.2500001f && m<=0.2500001f); mem[c]=m; m0[c]=m; }
+  opus_pcm_soft_clip(x,N,C,mem);
+  for(int i=0;i<NMAX*CMAX;i++){
+    VASSERT(x[i]>=-1.f && x[i]<=1.f,"soft clip: output inside [-1,1]");
+    VASSERT(same_sign_or_zero(in[i],x[i]),"soft clip never flips a sample's sign");
+    { int c=i%CMAX; if(!(in[c]*m0[c]<0.f)) VASSERT(fbits(x[i])==fbits(in[i]),"a channel whose first sample does not oppose the previous curve is bit-for-bit untouched"); }
+  }
+  for(int c=0;c<CMAX;c++) VASSERT(fbits(mem[c])==0,"memory cleared after a frame that ends in range");
+  VWITNESS(m0[0]<0.f && in[0]>0.5f && x[0]<in[0]);
 #endif
 }
